@@ -43,7 +43,7 @@ Section Safe.
   Lemma a_mget_ok av hs excl eids m i : forall S, as_ok S = true -> a_has S eids m i = true ->
     as_ok (fst (a_mget unit av hs excl eids m i S)) = true.
   Proof.
-    induction m as [sid|sid touch d| |l|sid|m IH|sid mode selmod selrem d others|k mode d|sid]; intros S Hok Hh; cbn [a_mget a_has] in *.
+    induction m as [sid|sid touch d| |l|sid|m IH|sid mode selmod selrem d others|k mode d|sid|bop ba bb]; intros S Hok Hh; cbn [a_mget a_has] in *.
     - apply mem_cell in Hh. pose proof (a_jact_ok S sid (JRead i) Hok Hh) as X. destruct (a_jact unit S sid _) as [S1 t]. exact X.
     - apply mem_cell in Hh. pose proof (a_jact_ok S sid (JAccess i touch d) Hok Hh) as X. destruct (a_jact unit S sid _) as [S1 t]. exact X.
     - exact Hok.
@@ -63,6 +63,7 @@ Section Safe.
     - rewrite NMF.mem_find_b in Hh. destruct (NM.find i (as_cs S k)) as [a|]; [|discriminate]. cbn [fst].
       destruct (N.eqb mode 1); [exact Hok|]. destruct (N.eqb mode 2); exact Hok.
     - apply mem_cell in Hh. pose proof (a_jact_ok S sid (JRemove i) Hok Hh) as X. destruct (a_jact unit S sid _) as [S1 t]. exact X.
+    - exact Hok.
   Qed.
 
   (* --- change-set cells --- *)
@@ -84,7 +85,7 @@ Section Safe.
   Proof.
     assert (forall S sid a k j, cscell (fst (a_jact unit S sid a)) k j = cscell S k j) as Hj.
     { intros S sid a k j. unfold cscell. rewrite a_jact_cs. reflexivity. }
-    induction m as [sid|sid touch d| |l|sid|m IH|sid mode selmod selrem d others|k' mode d|sid]; intros S k j; cbn [a_mget m_cs_eff].
+    induction m as [sid|sid touch d| |l|sid|m IH|sid mode selmod selrem d others|k' mode d|sid|bop ba bb]; intros S k j; cbn [a_mget m_cs_eff].
     - specialize (Hj S sid (JRead i) k j). destruct (a_jact unit S sid _) as [S1 t]. cbn [fst] in *. rewrite Hj. destruct (N.eq_dec i j) as [<-|]; reflexivity.
     - specialize (Hj S sid (JAccess i touch d) k j). destruct (a_jact unit S sid _) as [S1 t]. cbn [fst] in *. rewrite Hj. destruct (N.eq_dec i j) as [<-|]; reflexivity.
     - destruct (N.eq_dec i j) as [<-|]; reflexivity.
@@ -115,6 +116,7 @@ Section Safe.
       + cbn [as_fail as_cs]. destruct (N.eq_dec k' k) as [<-|]; destruct (N.eq_dec i j) as [<-|]; rewrite ?Ef; try reflexivity.
         destruct (N.eqb mode 1); [reflexivity|]. destruct (N.eqb mode 2); reflexivity.
     - specialize (Hj S sid (JRemove i) k j). destruct (a_jact unit S sid _) as [S1 t]. cbn [fst] in *. rewrite Hj. destruct (N.eq_dec i j) as [<-|]; reflexivity.
+    - destruct (N.eq_dec i j) as [<-|]; reflexivity.
   Qed.
 End Safe.
 
